@@ -51,7 +51,8 @@ def mpi_at(b, p):
 class Recipient(object):
     """a foreign key pair that can decrypt (RSA, X25519, NIST ECDH)."""
 
-    def __init__(self, kind, created=1262304000):
+    def __init__(self, kind, created=1262304000, kdf=None):
+        """kdf: (hash id, cipher id) of the RFC 6637 KDF parameter field; default: the per-curve values GnuPG / PGPy generate."""
         self.kind = kind
         self.created = created
         if kind.startswith('rsa'):
@@ -64,8 +65,8 @@ class Recipient(object):
             raw = self.priv.public_key().public_bytes(serialization.Encoding.Raw, serialization.PublicFormat.Raw)
             self.alg = 18
             self.oid = build.OID['cv25519']
-            self.kdf = (8, 7)
-            self.material = bytes([len(self.oid)]) + self.oid + build.mpi_bytes(b'\x40' + raw) + bytes([3, 1, 8, 7])
+            self.kdf = kdf or (8, 7)
+            self.material = bytes([len(self.oid)]) + self.oid + build.mpi_bytes(b'\x40' + raw) + bytes([3, 1, self.kdf[0], self.kdf[1]])
         else:
             curve = {'ecdh256': ('p256', (8, 7)), 'ecdh384': ('p384', (9, 8)), 'ecdh521': ('p521', (10, 9))}[kind]
             self.priv = ec.generate_private_key(build.CURVE[curve[0]]())
@@ -73,8 +74,8 @@ class Recipient(object):
             sz = (self.priv.curve.key_size + 7) // 8
             self.alg = 18
             self.oid = build.OID[curve[0]]
-            self.kdf = curve[1]
-            self.material = bytes([len(self.oid)]) + self.oid + build.mpi_bytes(b'\x04' + nums.x.to_bytes(sz, 'big') + nums.y.to_bytes(sz, 'big')) + bytes([3, 1, curve[1][0], curve[1][1]])
+            self.kdf = kdf or curve[1]
+            self.material = bytes([len(self.oid)]) + self.oid + build.mpi_bytes(b'\x04' + nums.x.to_bytes(sz, 'big') + nums.y.to_bytes(sz, 'big')) + bytes([3, 1, self.kdf[0], self.kdf[1]])
 
     @property
     def pub_body(self):
